@@ -77,6 +77,11 @@ def run(ctx):
                                                           "oracle": "c13: `!` is NOT only for Hive", "how_found": "fixed"})
     # (b), (c): all dialect pairs
     cases = pfam.scripts(ctx.rng.fork("pairs"), n, wild=0.05, single=True)
+    cases += [(d, t, "tree-first") for d, t in pfam.tree_texts(ctx.rng.fork("trees"), 100 if ctx.quick else 2000)]
+    # dialect-only constructs (`%`, Hive subscripts, DB2 CURRENT DATE) inside every bracketed operand position
+    for d in ("MYSQL", "HIVE", "DB2"):
+        ops = pfam.operator_pairs(d)
+        cases += [(d, t, "operator-pairs") for t in (ops if not ctx.quick else [t for t in ops if "%" in t or d != "MYSQL"][::3])]
     reqs, meta = [], []
     for d, t, _ in cases:
         sd = r.choice(pfam.DIALECTS)
